@@ -164,6 +164,7 @@ type dqW struct {
 	// not fail-fast, in some runs, so that the other clauses get deep histories too
 	avoidResize, avoidPopEmpty bool
 	sinceFull                  int
+	prevFull                   bool // the previous check compared everything (so blame is exact)
 	exactFitOp                 int // r.Ops value right after a Shrink(0) that reallocated
 	gcOn                       bool
 	weaks                      []weak.Pointer[dqVal]
@@ -515,11 +516,18 @@ func (w *dqW) check(op int, force bool) {
 	c, front, _, _ := d.VerifState()
 	w.sinceFull++
 	full := force || c <= 64 || w.sinceFull*4 >= c+n
+	// contents and raw slots are not compared completely after every step of a large deque; name
+	// the operation in the signature only when it is certainly the one to blame
+	blame := "detected-later"
+	if w.prevFull {
+		blame = "after-" + name
+	}
+	w.prevFull = full
 	if !full {
 		if n > 0 {
 			for _, i := range [...]int{0, n - 1, n / 2, (r.Ops * 7919) % n} {
 				if got := d.Item(i); got != w.m.at(i) {
-					r.Violate("C04", "deque/item-mismatch/after-"+name, "after %s: Item(%d) = v%d, the model says v%d (len %d)", name, i, dqID(got), dqID(w.m.at(i)), n)
+					r.Violate("C04", "deque/item-mismatch/"+blame, "after %s: Item(%d) = v%d, the model says v%d (len %d)", name, i, dqID(got), dqID(w.m.at(i)), n)
 					return
 				}
 			}
@@ -530,7 +538,7 @@ func (w *dqW) check(op int, force bool) {
 	mv := w.m.view()
 	for i, want := range mv {
 		if got := d.Item(i); got != want {
-			r.Violate("C04", "deque/item-mismatch/after-"+name, "after %s: Item(%d) = v%d, the model says v%d (len %d)", name, i, dqID(got), dqID(want), n)
+			r.Violate("C04", "deque/item-mismatch/"+blame, "after %s: Item(%d) = v%d, the model says v%d (len %d)", name, i, dqID(got), dqID(want), n)
 			return
 		}
 	}
@@ -549,7 +557,7 @@ func (w *dqW) check(op int, force bool) {
 			live = off < n
 		}
 		if !live {
-			r.Violate("C04", "retention/slot-not-zeroed/after-"+name, "after %s: raw slot %d (capacity %d, front %d, len %d) still holds v%d, which is not in the deque", name, p, len(slots), front, n, s.id)
+			r.Violate("C04", "retention/slot-not-zeroed/"+blame, "after %s: raw slot %d (capacity %d, front %d, len %d) still holds v%d, which is not in the deque", name, p, len(slots), front, n, s.id)
 			return
 		}
 	}
